@@ -1,5 +1,7 @@
 """C16 — Riemannian projection is an orthogonal projector (gradient clause under the autograd model)."""
 
+THOROUGH_SEEDS = 4
+
 
 def cases(tier, seed):
     import random
